@@ -73,6 +73,8 @@ class C04(Prop):
             if len(units) != len(names):
                 fails.append(f"one-unit-per-column: {len(units)} units for columns {names}")
                 continue
+            if "lenient_names" in rec and rec["lenient_names"] != rec["frame_names"]:
+                fails.append(f"register-order: get_table_info(fail_if_missing=False) lists {rec['lenient_names']} for columns {rec['frame_names']}")
             if isinstance(rec["by_name"], str):
                 fails.append(f"lookup: per-column lookup raised {rec['by_name']}")
             elif rec["by_name"] != units:
